@@ -26,12 +26,12 @@ contract(TR + "query_ast_visitor.visit_Call_Lambda", props=["C09", "C01"],
          params=dict(self=QV, call_node=CALLN),
          requires=CVC_REQUIRES + [("lambda_call", "field(call_node, 'func') != None and live(field(call_node, 'func')) and "
                                                  "implies(isinst(field(call_node, 'func'), 'ast.Lambda'), field(field(call_node, 'func'), 'args', 'ast.Lambda') != None and "
-                                                 "live(field(field(call_node, 'func'), 'args', 'ast.Lambda')) and field(field(call_node, 'func'), 'body') != None and "
-                                                 "live(field(field(call_node, 'func'), 'body')))")],
+                                                 "live(field(field(call_node, 'func'), 'args', 'ast.Lambda')) and field(field(call_node, 'func'), 'body', 'ast.Lambda') != None and "
+                                                 "live(field(field(call_node, 'func'), 'body', 'ast.Lambda')))")],
          modifies=CVC_MODIFIES + ["ghost:arg_frames"], may_raise=["Exception"], strict=False,
          raises={"AssertionError": "not isinst(field(call_node, 'func'), 'ast.Lambda')"},
          ensures=CVC_ENSURES + [
-             ("value_of_the_body@C01", "rep_of(call_node) != None and rep_of(call_node) == rep_of(field(field(call_node, 'func'), 'body'))"),
+             ("value_of_the_body@C01", "rep_of(call_node) != None and rep_of(call_node) == rep_of(field(field(call_node, 'func'), 'body', 'ast.Lambda'))"),
              ("frame_popped", "arg_frames == old(arg_frames)"),
          ],
          ensures_raise={"*": [("frame_popped_on_failure@C09", "arg_frames == old(arg_frames)")]},
